@@ -26,7 +26,9 @@ FLAVOURS = {
     "asan": {"cxx": "g++", "flags": ["-std=c++14", "-O1", "-g1", "-fsanitize=address,undefined", "-fsanitize-recover=address",
                                      "-fno-sanitize-recover=undefined", "-fno-sanitize=signed-integer-overflow,float-cast-overflow,shift",
                                      "-fno-omit-frame-pointer", "-D_GLIBCXX_ASSERTIONS", "-DVF_ASAN"], "ld": ["-fsanitize=address,undefined"]},
-    "tsan": {"cxx": "g++", "flags": ["-std=c++14", "-O1", "-g1", "-fsanitize=thread"], "ld": ["-fsanitize=thread"]},
+    "tsan": {"cxx": "g++", "flags": ["-std=c++14", "-O1", "-g1", "-fsanitize=thread"], "drv_extra": ["-DVF_FREERUN"], "ld": ["-fsanitize=thread"]},
+    # scheduling points at every entry/exit of a library function; the harness itself is not instrumented
+    "sched": {"cxx": "g++", "flags": ["-std=c++14", "-O1", "-g1"], "lib_extra": ["-finstrument-functions", "-finstrument-functions-exclude-file-list=/usr/include,/usr/lib"], "ld": []},
 }
 ASAN_ENV = {"ASAN_OPTIONS": "halt_on_error=0:detect_leaks=0:abort_on_error=0:print_summary=1:allocator_may_return_null=1:max_allocation_size_mb=2048",
             "UBSAN_OPTIONS": "print_stacktrace=1:halt_on_error=1"}
@@ -60,6 +62,7 @@ DRIVERS = {  # binary -> (sources in harness/, extra flags, link with the librar
     "drv_fault": (["drv_fault.cpp", "io_shim.c"], [], True),
     "drv_damage": (["drv_damage.cpp"], [], True),
     "drv_misc": (["drv_misc.cpp"], [], True),
+    "drv_sched": (["drv_sched.cpp"], [], True),
 }
 
 
@@ -78,7 +81,7 @@ def build(flavour="plain", drivers=("drv_api", "drv_file")):
         obj = os.path.join(out, "lib_" + os.path.basename(src)[:-4] + ".o")
         libobjs.append(obj)
         if not os.path.exists(obj):
-            jobs.append(([fl["cxx"]] + fl["flags"] + inc + ["-c", src, "-o", obj + ".tmp"], obj))
+            jobs.append(([fl["cxx"]] + fl["flags"] + fl.get("lib_extra", []) + inc + ["-c", src, "-o", obj + ".tmp"], obj))
     drvobjs = {}
     for d in drivers:
         srcs, xf, _ = DRIVERS[d]
@@ -91,7 +94,7 @@ def build(flavour="plain", drivers=("drv_api", "drv_file")):
                 flags = fl["flags"] if s.endswith(".cpp") else [f for f in fl["flags"] if not f.startswith("-std=") and not f.startswith("-D_GLIBCXX")]
                 if s.endswith(".c"):
                     flags = ["-O1", "-g1"]  # shims are never instrumented
-                jobs.append(([cc] + flags + xf + inc + ["-c", os.path.join(HARNESS, s), "-o", obj + ".tmp"], obj))
+                jobs.append(([cc] + flags + fl.get("drv_extra", []) + xf + inc + ["-c", os.path.join(HARNESS, s), "-o", obj + ".tmp"], obj))
 
     def run(job):
         cmd, obj = job
@@ -487,6 +490,138 @@ def check_c17(tier, deadline):
     return rep.finish()
 
 
+# ---------------------------------------------------------------------------------------------- C18
+def check_c18(tier, deadline):
+    rep = Report("C18", tier, "model_checking")
+    bdir = build("sched", ("drv_sched",))
+    sc = scratch_dir("c18"); out = os.path.join(sc, "out.json")
+    cmd = [os.path.join(bdir, "drv_sched"), "--tier", tier, "--workers", str(WORKERS), "--deadline", str(deadline * 0.7), "--scratch", sc, "--out", out]
+    r = sh(cmd, capture_output=True, text=True)
+    if r.returncode != 0 or not os.path.exists(out):
+        log("driver failed", " ".join(cmd), r.stdout[-1000:], r.stderr[-1000:]); raise SystemExit(3)
+    d = json.load(open(out)); shutil.rmtree(sc, ignore_errors=True)
+    log(f"[sched] schedules={d['schedules']} done={d['done']} by_preemptions={d['by_preemptions']} crashes={d['crashes_total']} {d['wall_s']}s")
+    base = {"engine": "sched", "tier": tier}
+    for v in d["violations"]:
+        rep.add(v["sig"], "a thread's observations differ from the same body run alone: " + v["detail"], dict(base, input=v["schedule"]), v["count"])
+    for c in d["crashes"]:
+        rep.add("crash/" + c["kind"], "execution died under schedule " + c["schedule"], dict(base, input=c["schedule"]))
+    # free-running pass under ThreadSanitizer (a cooperative scheduler's hand-offs are happens-before edges that would blind the detector)
+    tdir = build("tsan", ("drv_sched",))
+    sc2 = scratch_dir("c18tsan"); out2 = os.path.join(sc2, "out.json"); reps = 20 if tier == "quick" else 200
+    env = dict(os.environ); env["TSAN_OPTIONS"] = "halt_on_error=0:report_signal_unsafe=0:exitcode=0:log_path=" + os.path.join(sc2, "tsan")
+    r2 = sh([os.path.join(tdir, "drv_sched"), "--tier", tier, "--reps", str(reps), "--scratch", sc2, "--out", out2], env=env, capture_output=True, text=True)
+    free = json.load(open(out2)) if os.path.exists(out2) else None
+    reports = []
+    for lf in glob.glob(os.path.join(sc2, "tsan.*")):
+        txt = open(lf, errors="replace").read()
+        for m in re.finditer(r"WARNING: ThreadSanitizer: ([^\n(]+).*?(?=WARNING: ThreadSanitizer|\Z)", txt, re.S):
+            blk = m.group(0); fn = re.search(r"#\d+ (ezc3d::[A-Za-z0-9_:~]+)", blk)
+            reports.append((m.group(1).strip(), fn.group(1) if fn else "?", blk[:700]))
+    for kind, fn, blk in reports:
+        rep.add(f"tsan/{kind}/{fn}", blk, dict(base, input="free-running pass, see report"))
+    if free is None:
+        rep.add("harness/tsan_pass_failed", (r2.stdout + r2.stderr)[-600:], dict(base, input="tsan"))
+    shutil.rmtree(sc2, ignore_errors=True)
+    nthreads = sum(len(g["fine_points"]) for g in d["groups"])
+    rep.coverage = {"states": d["done"], "transitions": sum(sum(g["fine_points"]) for g in d["groups"]), "traces_validated_against_impl": d["done"],
+                    "evaluations": d["done"], "distinct_nontrivial": d["done"],
+                    "rule": "states = complete executions (schedules) of 2 (thorough: also 3) threads using independent objects under a cooperative scheduler; transitions = scheduling points per group "
+                            "(every entry/exit of a library function + harness op boundaries + interposed libc I/O calls). Enumerated exhaustively: all thread orders (0 preemptions), one preemption at "
+                            "every fine point of every thread, two preemptions over all pairs of coarse points (quick: same-body groups only); every schedule is a real execution; a diverging schedule is "
+                            "re-run before it is reported",
+                    "exhaustive": d["done"] >= d["schedules"], "schedules_by_preemptions": d["by_preemptions"], "groups": d["groups"], "samples": d["samples"],
+                    "tsan_free_run": free, "tsan_reports": len(reports)}
+    rep.assumptions = ["interleavings inside one library function between two std calls and weak-memory effects are not enumerated; the ThreadSanitizer free-running pass covers them only probabilistically",
+                       "scheduler hand-off by futex; scheduling points from -finstrument-functions on /repo/src only"]
+    return rep.finish()
+
+
+# ---------------------------------------------------------------------------------------------- C19
+CONFIGS = [(bt, sh_) for bt in ("Debug", "RelWithDebInfo", "Release") for sh_ in ("TRUE", "FALSE")]
+
+
+def check_c19(tier, deadline):
+    rep = Report("C19", tier, "exploration")
+    plain = build("plain", ("drv_api", "drv_file", "drv_misc"))
+    root = f"/tmp/ezc3d-c19.{os.getpid()}"
+    shutil.rmtree(root, ignore_errors=True); os.makedirs(root)
+
+    def cfg_build(cfg):
+        bt, shared = cfg
+        bdir = os.path.join(root, f"{bt}-{'shared' if shared == 'TRUE' else 'static'}")
+        r = sh(["cmake", "-S", REPO, "-B", bdir, "-G", "Ninja", f"-DCMAKE_BUILD_TYPE={bt}", f"-DBUILD_SHARED_LIBS={shared}", "-DBUILD_EXAMPLE=OFF", "-DBUILD_TESTS=OFF", "-DBUILD_DOC=OFF"], capture_output=True, text=True)
+        if r.returncode == 0:
+            r = sh(["cmake", "--build", bdir, "-j", "4"], capture_output=True, text=True)
+        if r.returncode != 0:
+            return cfg, None, (r.stdout + r.stderr)[-1500:]
+        libs = glob.glob(os.path.join(bdir, "libezc3d*"))
+        lib = [l for l in libs if l.endswith(".so") or l.endswith(".a")]
+        exes = {}
+        for drv in ("drv_api", "drv_file", "drv_misc"):
+            exe = os.path.join(bdir, drv)
+            objs = [os.path.join(plain, f"{drv}_{drv}.o")]
+            cmd = ["g++", "-o", exe] + objs + ([lib[0]] if lib[0].endswith(".a") else ["-L" + bdir, "-l" + os.path.basename(lib[0])[3:-3], "-Wl,-rpath," + bdir]) + ["-ldl", "-lpthread"]
+            r2 = sh(cmd, capture_output=True, text=True)
+            if r2.returncode != 0:
+                return cfg, None, "link: " + r2.stderr[-1500:]
+            exes[drv] = exe
+        return cfg, exes, ""
+
+    t0 = time.time()
+    with ThreadPoolExecutor(max_workers=6) as ex:
+        built = list(ex.map(cfg_build, CONFIGS))
+    for cfg, exes, err in built:
+        if exes is None:
+            log(f"C19: build {cfg} failed: {err}"); shutil.rmtree(root, ignore_errors=True); raise SystemExit(3)
+    log(f"[c19] six CMake builds + links in {time.time() - t0:.1f}s")
+    corpora = [("drv_api", "build", ["--alphabet", "build", "--oracles", "T", "--depth", "3" if tier == "quick" else "4"]),
+               ("drv_api", "mut", ["--alphabet", "mut", "--oracles", "T", "--depth", "4" if tier == "quick" else "5"]),
+               ("drv_api", "params", ["--alphabet", "params", "--oracles", "T", "--depth", "2" if tier == "quick" else "3"]),
+               ("drv_file", "c04", ["--mode", "c04", "--devs", "2" if tier == "quick" else "3"] + sum([["--vendor", os.path.join(REPO, v)] for v in VENDOR if os.path.exists(os.path.join(REPO, v))], [])),
+               ("drv_file", "c12", ["--mode", "c12"]),
+               ("drv_misc", "setters", ["--mode", "setters"])]
+    lines_total = 0; per_corpus = []
+    samples = []
+    for drv, name, args in corpora:
+        trs = {}
+        def run_cfg(item):
+            cfg, exes, _ = item
+            tag = f"{cfg[0]}-{'shared' if cfg[1] == 'TRUE' else 'static'}"
+            sc = os.path.join(root, "run-" + tag + "-" + name); os.makedirs(sc, exist_ok=True)
+            tr = os.path.join(sc, "transcript.txt")
+            r = sh([exes[drv]] + args + ["--tier", tier, "--workers", "3", "--scratch", sc, "--out", os.path.join(sc, "out.json"), "--transcript", tr], capture_output=True, text=True)
+            body = open(tr, errors="replace").read().splitlines() if os.path.exists(tr) else ["<no transcript: " + (r.stdout + r.stderr)[-300:] + ">"]
+            dg = os.path.join(sc, "digests.txt")
+            if os.path.exists(dg):
+                body += sorted(open(dg, errors="replace").read().splitlines())
+            shutil.rmtree(sc, ignore_errors=True)
+            return tag, body
+        with ThreadPoolExecutor(max_workers=6) as ex:
+            for tag, body in ex.map(run_cfg, built):
+                trs[tag] = body
+        ref_tag = "RelWithDebInfo-shared"; ref = trs[ref_tag]
+        lines_total += len(ref); per_corpus.append({"corpus": name, "driver": drv, "transcript_lines": len(ref)})
+        if ref:
+            samples.append(f"{name}: {ref[len(ref) // 2][:160]}")
+        for tag, body in trs.items():
+            if body == ref:
+                continue
+            n = next((i for i in range(min(len(body), len(ref))) if body[i] != ref[i]), min(len(body), len(ref)))
+            a = ref[n] if n < len(ref) else "<end>"; b = body[n] if n < len(body) else "<end>"
+            field = "outcome" if a.split(" -> ")[0] == b.split(" -> ")[0] and " -> " in a else "value"
+            rep.add(f"transcripts_differ/{name}/{ref_tag}_vs_{tag}/{field}", f"line {n}: {ref_tag}: {a[:300]} || {tag}: {b[:300]}",
+                    {"engine": "c19", "corpus": name, "builds": [ref_tag, tag], "line": n, "reference_line": a, "other_line": b})
+    shutil.rmtree(root, ignore_errors=True)
+    rep.coverage = {"evaluations": lines_total * len(CONFIGS), "distinct_nontrivial": lines_total,
+                    "rule": "the project's own CMakeLists builds the library in the six supported configurations (Debug/-O0, RelWithDebInfo/-O2, Release/-O3 x shared/static); the same deterministic drivers "
+                            "(API state-space exploration emitting every transition with its outcome class and successor state hash plus the saved-file digest of every state; file corpus through 3 load/save "
+                            "generations emitting loaded-state and file hashes; all integer/float pattern files) run against each build; the transcripts must be identical line by line",
+                    "exhaustive": True, "configurations": [f"{a}/{'shared' if b == 'TRUE' else 'static'}" for a, b in CONFIGS], "corpora": per_corpus, "samples": samples or ["<empty>"]}
+    rep.assumptions = ["the harness objects are compiled once (library code lives entirely in the .cpp files, the public headers hold declarations only), each configuration's library is linked in"]
+    return rep.finish()
+
+
 # ---------------------------------------------------------------------------------------------- C13
 C13_RUNS = [("mut", "C13", 4, 6), ("frames", "C13", 4, 6), ("c07", "C13", 4, 6), ("params", "C13", 2, 3), ("lookup", "C13,C11", 4, 6), ("build", "C13,C01,C03", 3, 4)]
 
@@ -640,6 +775,14 @@ def do_replay(path):
         rc = sh(cmd).returncode
         shutil.rmtree(sc, ignore_errors=True)
         return rc
+    if r.get("engine") == "sched":
+        bdir = build("sched", ("drv_sched",))
+        sc = scratch_dir("replay")
+        cmd = [os.path.join(bdir, "drv_sched"), "--tier", r.get("tier", "quick"), "--schedule", r["input"], "--scratch", sc]
+        print("replaying:", " ".join(cmd)); print("expected signature:", r.get("signature"))
+        rc = sh(cmd).returncode
+        shutil.rmtree(sc, ignore_errors=True)
+        return rc
     if r.get("engine") == "fault":
         bdir = build("plain", ("drv_fault",))
         sc = scratch_dir("replay")
@@ -660,8 +803,9 @@ def main():
     b = sub.add_parser("build"); b.add_argument("flavours", nargs="*")
     a = ap.parse_args()
     if a.cmd == "build":
+        per = {"plain": ("drv_api", "drv_file", "drv_fault", "drv_damage", "drv_misc"), "asan": ("drv_api", "drv_damage"), "sched": ("drv_sched",), "tsan": ("drv_sched",)}
         for f in a.flavours or ["plain"]:
-            build(f, ("drv_api",))
+            build(f, per.get(f, ("drv_api",)))
         return 0
     if a.cmd == "replay":
         return do_replay(a.path)
@@ -680,6 +824,10 @@ def main():
             return check_c16(tier, deadline)
         if a.prop == "C17":
             return check_c17(tier, deadline)
+        if a.prop == "C18":
+            return check_c18(tier, deadline)
+        if a.prop == "C19":
+            return check_c19(tier, deadline)
         if a.prop == "C13":
             return check_c13(tier, deadline)
         print("no check for", a.prop)
